@@ -1,7 +1,7 @@
 import LicenseExpr.Model.Spec
 import LicenseExpr.Lemmas.Simplify
 /-!
-# Lemmas/DedupL — `dedup` (dict by rendering: first position, last value) against the reference
+# Lemmas/DedupL — `dedup` (dict by rendering, first kept) against the reference
 `dedupRef` (drop each operand whose rendering repeats an earlier sibling)
 -/
 namespace LE
@@ -9,36 +9,29 @@ namespace LE
 /-- unequal members render differently -/
 def RenderInj (L : List (Expr Atom)) : Prop := ∀ x ∈ L, ∀ y ∈ L, renderStr x = renderStr y → x = y
 
-theorem lastWith_some (L : List (Expr Atom)) (x : Expr Atom) (hx : x ∈ L) :
-    ∃ y, lastWith (renderStr x) L = some y ∧ y ∈ L ∧ renderStr y = renderStr x := by
-  unfold lastWith
-  cases hf : L.reverse.find? (fun z => renderStr z == renderStr x) with
-  | none =>
-    have := List.find?_eq_none.mp hf x (by simpa using hx)
-    simp at this
-  | some y =>
-    have h1 := List.mem_of_find?_eq_some hf
-    have h2 := List.find?_some hf
-    exact ⟨y, rfl, by simpa using h1, by simpa using h2⟩
-
-theorem uniq_eq_erase_aux (L : List (Expr Atom)) (hinj : RenderInj L) (seen : List Str) (l : List (Expr Atom))
-    (hsub : ∀ x ∈ l, x ∈ L) :
-    (firstKeys seen l).filterMap (fun k => lastWith k L) = eraseDupsByRender seen l := by
-  induction l generalizing seen with
-  | nil => simp [firstKeys, eraseDupsByRender]
+theorem uniqGo_eq_erase (l : List (Expr Atom)) : ∀ (firsts : List (Str × Expr Atom)),
+    (uniqGo firsts l).map (·.2) = firsts.map (·.2) ++ eraseDupsByRender (firsts.map (·.1)) l := by
+  induction l with
+  | nil => intro firsts; simp [uniqGo, eraseDupsByRender]
   | cons x xs ih =>
-    simp only [firstKeys, eraseDupsByRender]
-    have ih' := fun s => ih s (fun y hy => hsub y (List.mem_cons_of_mem _ hy))
+    intro firsts
+    simp only [uniqGo, eraseDupsByRender]
+    have hc : firsts.any (fun kv => kv.1 == renderStr x) = (firsts.map (·.1)).contains (renderStr x) := by
+      induction firsts with
+      | nil => rfl
+      | cons a r ihr => simp [List.any_cons, List.contains_cons, ihr, Bool.beq_comm (a := a.1)]
+    rw [hc]
     split
-    · exact ih' seen
-    · obtain ⟨y, h1, h2, h3⟩ := lastWith_some L x (hsub x (by simp))
-      have : y = x := hinj y h2 x (hsub x (by simp)) h3
-      subst this
-      simp [List.filterMap_cons, h1, ih']
+    · exact ih firsts
+    · rw [ih]; simp
 
-/-- on render-faithful operand lists the dictionary of `combine_expressions` keeps exactly the first occurrences -/
-theorem uniqByRender_eq_erase (L : List (Expr Atom)) (hinj : RenderInj L) : uniqByRender L = eraseDupsByRender [] L :=
-  uniq_eq_erase_aux L hinj [] L (fun _ h => h)
+/-- the dictionary of `combine_expressions` keeps exactly the first occurrences — on every list -/
+theorem uniqByRender_eq_erase' (L : List (Expr Atom)) : uniqByRender L = eraseDupsByRender [] L := by
+  have := uniqGo_eq_erase L []
+  simpa [uniqByRender] using this
+
+theorem uniqByRender_eq_erase (L : List (Expr Atom)) (_hinj : RenderInj L) : uniqByRender L = eraseDupsByRender [] L :=
+  uniqByRender_eq_erase' L
 
 /-- what is kept is a subsequence of the operands: order is never changed -/
 theorem eraseDups_sublist (seen : List Str) (l : List (Expr Atom)) : (eraseDupsByRender seen l).Sublist l := by
@@ -81,26 +74,27 @@ def Faithful : Expr Atom → Prop
 termination_by e => sizeOf e
 decreasing_by simp_wf; have := List.sizeOf_lt_of_mem h; omega
 
-/-- **`dedup` is the reference deduplication** on render-faithful expressions -/
-theorem dedupE_eq_ref (e : Expr Atom) (hf : Faithful e) : dedupE e = dedupRef e := by
+/-- **`dedup` is the reference deduplication** — on every expression -/
+theorem dedupE_eq_ref_all (e : Expr Atom) : dedupE e = dedupRef e := by
   fun_induction dedupE e
   · simp [dedupRef]
   · next op args ih =>
-    rw [Faithful] at hf
     have hmap : args.attach.map (fun a => dedupE a.1) = args.map dedupRef := by
       rw [← List.attach_map_val (l := args) (f := dedupRef)]
       apply List.map_congr_left
       intro a _
-      exact ih a (hf.1 a.1 a.2)
+      exact ih a
     rw [dedupRef, hmap]
     have hmap2 : args.attach.map (fun a => dedupRef a.1) = args.map dedupRef := by
       rw [← List.attach_map_val (l := args) (f := dedupRef)]
     rw [hmap2]
     unfold combineU
-    rw [uniqByRender_eq_erase _ hf.2]
+    rw [uniqByRender_eq_erase' _]
     cases eraseDupsByRender [] (List.map dedupRef args) with
     | nil => rfl
     | cons x xs => cases xs <;> rfl
+
+theorem dedupE_eq_ref (e : Expr Atom) (_hf : Faithful e) : dedupE e = dedupRef e := dedupE_eq_ref_all e
 
 end LE
 
